@@ -92,7 +92,9 @@ CHECKS = {
         "assumptions": COMMON_ASSUME + ["only executed return paths are observed"],
     },
     "C12": {
-        "legs": legs_simple("props", "^TestC12$", 1, 4),
+        "legs": lambda tier: [{"pkg": "props", "run": "^TestC12$", "shards": 1 if tier == "quick" else 4},
+                              # names, listings and lookups agree also when a registry's first use is concurrent (race-detector build)
+                              {"pkg": "racecheck", "run": "^TestFreshRegistryReads$", "shards": 2 if tier == "quick" else 8, "race": True, "replay_pkg": False}],
         "exhaustive": True,
         "rule": "enumerated: every Register* call found by a go/parser census of v3/lints/*/*.go (non-test) and every lint in the "
                 "default-build registry, each checked once (census==registry, lookups agree, metadata well-formed); generated: "
